@@ -86,3 +86,33 @@ def file_entries(rec):
     for f, d, a, _ in rec["entries"]:
         out.setdefault(f, []).append((d, a))
     return out
+
+
+def renumber_flat_history(root, offset):
+    """rename the manifests of the (flat) root history to generation numbers + offset and rewrite the chain file
+    accordingly (manifest bytes, and therefore their c4, stay the same).  Returns the new highest number."""
+    import re as _re
+
+    d = asc_dir(root, ".")
+    names = sorted(n for n in os.listdir(d) if n.endswith(".mhl") and not n.startswith("._") and gen_no(n) is not None)
+    chain_p = os.path.join(d, CHAIN)
+    with open(chain_p, encoding="utf-8") as f:
+        chain = f.read()
+    top = 0
+    for n in sorted(names, key=gen_no, reverse=True):
+        no = gen_no(n)
+        new = "%04d" % (no + offset) + n[len(n.split("_", 1)[0]) :]
+        os.rename(os.path.join(d, n), os.path.join(d, new))
+        esc = n.replace("&", "&amp;").replace("<", "&lt;").replace(">", "&gt;")
+        nesc = new.replace("&", "&amp;").replace("<", "&lt;").replace(">", "&gt;")
+        if esc not in chain:
+            raise RuntimeError("chain does not list " + n)
+        # the entry of this manifest: sequencenr attribute precedes its <path>
+        pat = _re.compile(r'(<hashlist sequencenr=")%d(">\s*<path>)%s(</path>)' % (no, _re.escape(esc)))
+        chain, k = pat.subn(lambda m: m.group(1) + str(no + offset) + m.group(2) + nesc + m.group(3), chain)
+        if k != 1:
+            raise RuntimeError("could not renumber chain entry of " + n)
+        top = max(top, no + offset)
+    with open(chain_p, "w", encoding="utf-8") as f:
+        f.write(chain)
+    return top
